@@ -80,6 +80,8 @@ def literal_lexemes(text):
 
 
 def examine(case):
+    if case.get("kind") == "sweep":
+        return examine_sweep(case)
     q = case["q"]
     registry = C10REG if case.get("registry") == "probes" else None
     env = c10env() if registry else None
@@ -155,8 +157,41 @@ _load_c10()
 
 def plan(tier, seed):
     if tier == "quick":
-        return [{"n": 600} for _ in range(16)]
-    return [{"n": 6000} for _ in range(16)]
+        specs = [{"n": 600} for _ in range(16)]
+        ranges = [(0, 0x800), (0xD7F0, 0xD800), (0xE000, 0xE010), (0xFFF0, 0x10010), (0x1F600, 0x1F608), (0x10FFF0, 0x110000)]
+    else:
+        specs = [{"n": 6000} for _ in range(16)]
+        ranges = [(lo, min(lo + 0x4000, 0x110000)) for lo in range(0, 0x110000, 0x4000)]
+    for i in range(16):
+        specs[i]["sweep"] = ranges[i::16]
+    return specs
+
+
+def examine_sweep(case):
+    """str() of $['<c>'] and of $[?@ == "<c>"] for every code point c: canonical single-quoted form, stable, same meaning."""
+    for cp in range(case["lo"], case["hi"]):
+        if 0xD800 <= cp <= 0xDFFF:
+            continue
+        c = chr(cp)
+        for q in ("$[" + Q.spell_string(c, None, '"') + "]", "$[?@ == " + Q.spell_string(c, None, "'") + "]"):
+            st, cq = lib.compile_(q)
+            if st != "ok":
+                continue
+            s1 = str(cq)
+            want = normpath.render_name(c)
+            if want not in s1:
+                return fail("literal-not-canonical", f"str(compile({q!r})) = {s1!r} does not contain the canonical literal {want!r} "
+                            f"for U+{cp:04X}", want, s1)
+            st2, cq2 = lib.compile_(s1)
+            if st2 != "ok":
+                return fail("str-not-recompilable", f"str(compile({q!r})) = {s1!r} does not compile: {cq2['str']}", "compiles", cq2)
+            if str(cq2) != s1:
+                return fail("str-unstable", f"str is not idempotent for {q!r}", s1, str(cq2))
+            doc = {c: 1, "other": 2} if q.startswith("$[\"") or q[2] == '"' else [c, "other"]
+            a, b = lib.find(cq, doc), lib.find(cq2, doc)
+            if a != b and not (a[0] == "ok" and b[0] == "ok" and ev.same_nodelist(a[1], b[1])):
+                return fail("reparse-differs", f"{q!r} and its str() {s1!r} select different nodes", None, None)
+    return None
 
 
 def force_grouping(g, r, fdepth=1):
@@ -223,10 +258,23 @@ def doc_for_query(r, asts):
 
 def run_shard(spec, shard):
     tier = spec["tier"]
+    for lo, hi in spec.get("sweep", []):
+        case = {"kind": "sweep", "lo": lo, "hi": hi}
+        n = sum(1 for c in range(lo, hi) if not 0xD800 <= c <= 0xDFFF) * 2
+        shard.evaluations += n
+        shard.nontrivial_by_construction += n
+        shard.classes["code-point-sweep-literals"] += n
+        f = examine(case)
+        if f:
+            shard.fail(f["bucket"], case, f, size=hi - lo)
+    if spec.get("sweep"):
+        shard.exhaustive["str()-of-single-character-literals"] = (
+            "every Unicode scalar value as a name and as a comparison literal" if tier == "thorough" else
+            "U+0000-U+07FF and range edges as a name and as a comparison literal")
 
     def body(r):
         names = ["a", "b", "c"] + [r.choice(NAMES) for _ in range(2)]
-        doc = diff.make_doc(r, tier, names=names, falsy_bias=0.25)
+        doc = diff.make_doc(r, tier, names=names, falsy_bias=0.25, wide_p=0.01)
         use_probes = r.random() < 0.25
         registry = None
         if use_probes:
@@ -277,7 +325,7 @@ def run_shard(spec, shard):
             raise HarnessError(f"generator/parser disagreement on {text!r}: {res!r} / {typecheck.check(plain, registry)}")
         docs = [doc]
         for _ in range(3 if tier == "quick" else 7):
-            docs.append(diff.make_doc(r, tier, names=names, falsy_bias=0.25))
+            docs.append(diff.make_doc(r, tier, names=names, falsy_bias=0.25, wide_p=0.0))
         for _ in range(3 if tier == "quick" else 5):
             docs.append(doc_for_query(r, [plain]))
         case = {"q": text, "docs": docs}
@@ -299,7 +347,7 @@ def run_shard(spec, shard):
                 for _ in range(30):
                     docs.append(doc_for_query(r, [plain, r1.ast]))
                 for _ in range(10):
-                    docs.append(diff.make_doc(r, tier, names=names, falsy_bias=0.4))
+                    docs.append(diff.make_doc(r, tier, names=names, falsy_bias=0.4, wide_p=0.0))
         shard.case(key=text, nontrivial=nt, classes=set(feats) | ({"probe-registry"} if use_probes else set())
                    | ({"compound-paren"} if compound_paren else set()), sample={"q": text, "str": str(cq) if st == "ok" else None})
         f = examine(case)
@@ -312,6 +360,12 @@ def run_shard(spec, shard):
 def minimise(case, failure, tier):
     from vlib import shrink
     bucket = failure["bucket"]
+    if case.get("kind") == "sweep":
+        for cp in range(case["lo"], case["hi"]):
+            f = examine(dict(case, lo=cp, hi=cp + 1))
+            if f and f["bucket"] == bucket:
+                return dict(case, lo=cp, hi=cp + 1), f
+        return case, failure
     registry = C10REG if case.get("registry") == "probes" else None
     cur = dict(case)
     if "doc" in failure:
@@ -338,4 +392,6 @@ def minimise(case, failure, tier):
 
 
 def signature(case, failure):
+    if case.get("kind") == "sweep":
+        return f"C12:{failure['bucket']}:code-point-sweep"
     return f"C12:{failure['bucket']}:{diff.shape(case['q'])}"
